@@ -194,7 +194,11 @@ dt_get_mon(struct dt_d_s that)
 	case DT_BIZDA:
 		return that.bizda.m;
 	case DT_YWD:
-		return __ywd_get_mon(that.ywd);
+		/* __ywd_get_mon() is off for days of week 1 that lie in
+		 * December and days of the last week that lie in January */
+		return __ywd_get_md(that.ywd).m;
+	case DT_YD:
+		return __yd_get_md(that.yd).m;
 	case DT_UMMULQURA:
 		return that.ummulqura.m;
 	default:
@@ -292,6 +296,8 @@ dt_get_wcnt_mon(struct dt_d_s that)
 		/* to shut gcc up */
 	case DT_YWD:
 		return __ywd_get_wcnt_mon(that.ywd);
+	case DT_YD:
+		return __ymd_get_count(__yd_to_ymd(that.yd));
 	default:
 	case DT_DUNK:
 		return 0;
@@ -307,9 +313,23 @@ dt_get_wcnt_year(struct dt_d_s this, unsigned int wkcnt_convention)
 	int res;
 
 	switch (this.typ) {
+	case DT_YMCW:
+		if (wkcnt_convention == YWD_ABSWK_CNT) {
+			/* the n-th W in the year is what ymcw is about */
+			res = __ymcw_get_yday(this.ymcw);
+			break;
+		}
+		goto via_yd;
+	case DT_YWD:
+		if (wkcnt_convention == YWD_ISOWK_CNT) {
+			res = __ywd_get_wcnt_year(this.ywd, wkcnt_convention);
+			break;
+		}
+		/*@fallthrough@*/
 	case DT_YMD:
 	case DT_DAISY:
-	case DT_YD: {
+	case DT_YD:
+	via_yd: {
 		dt_yd_t yd = dt_conv_to_yd(this);
 
 		switch (wkcnt_convention) {
@@ -344,12 +364,6 @@ dt_get_wcnt_year(struct dt_d_s this, unsigned int wkcnt_convention)
 		}
 		break;
 	}
-	case DT_YMCW:
-		res = __ymcw_get_yday(this.ymcw);
-		break;
-	case DT_YWD:
-		res = __ywd_get_wcnt_year(this.ywd, wkcnt_convention);
-		break;
 	default:
 		res = 0;
 		break;
@@ -453,6 +467,11 @@ dt_get_quarter(struct dt_d_s that)
 		break;
 	case DT_BIZDA:
 		m = that.bizda.m;
+		break;
+	case DT_DAISY:
+	case DT_YWD:
+	case DT_YD:
+		m = dt_get_mon(that);
 		break;
 	default:
 	case DT_DUNK:
